@@ -10,9 +10,9 @@ open Pycoin Pycoin.Curve WeierstrassCurve
 variable {g : Gen} [Good g.c]
 
 /-- `sec_to_public_pair(public_pair_to_sec(pair))` is the pair, for an on-curve pair with `0 ≤ x < 2²⁵⁶` and
-`0 < y < p` (`p ≡ 3 mod 4`, 256-bit `p`): decompression through `points_for_x` picks the right root -/
+`x < p`, `0 < y < p` (`p ≡ 3 mod 4`, 256-bit `p`): decompression through `points_for_x` picks the right root -/
 theorem sec_roundtrip (h4 : g.c.p % 4 = 3) (hbc : byteCount g.c.p = 32) {x y : Int}
-    (hon : containsXY g.c x y = true) (hx0 : 0 ≤ x) (hx1 : x < 2 ^ 256) (hy0 : 0 < y) (hy1 : y < g.c.p) :
+    (hon : containsXY g.c x y = true) (hx0 : 0 ≤ x) (hx1 : x < 2 ^ 256) (hxp : x < g.c.p) (hy0 : 0 < y) (hy1 : y < g.c.p) :
     secToPublicPair g.c ((if fmod y 2 = 1 then 3 else 2) :: beBytes x.toNat 32) = .ok (x, y) := by
   have hp : 0 < g.c.p := p_pos g.c
   have hcontains : (y : ZMod g.c.p) ^ 2 = alphaOf g.c x := by
@@ -45,7 +45,8 @@ theorem sec_roundtrip (h4 : g.c.p % 4 = 3) (hbc : byteCount g.c.p = 32) {x y : I
       unfold slice; simp
     rw [hs]
     unfold fromBytes32
-    rw [hxnat, hpts]
+    have hge : ¬ (x ≥ (g.c.p : Int)) := by omega
+    rw [hxnat, if_neg hge, hpts]
     simp [hy]
   · have hf : fmod y 2 = 1 := by
       rw [show fmod y 2 = y % 2 from fmod_eq_emod y (by norm_num), hy]
@@ -58,14 +59,15 @@ theorem sec_roundtrip (h4 : g.c.p % 4 = 3) (hbc : byteCount g.c.p = 32) {x y : I
       unfold slice; simp
     rw [hs]
     unfold fromBytes32
-    rw [hxnat, hpts]
+    have hge : ¬ (x ≥ (g.c.p : Int)) := by omega
+    rw [hxnat, if_neg hge, hpts]
     simp [hy]
 
 /-- **serialize_rt, public form.** -/
 theorem serialize_rt_public (h4 : g.c.p % 4 = 3) (hbc : byteCount g.c.p = 32) (n : Node) (hv : n.Valid g)
     (hd : n.depth ≤ 255) (hi : n.childIndex < 2 ^ 32)
-    (hx0 : 0 ≤ n.publicPair.1) (hx1 : n.publicPair.1 < 2 ^ 256) (hy0 : 0 < n.publicPair.2) (hy1 : n.publicPair.2 < g.c.p)
-    (ver : Bytes) (hver : ver.length = 4) :
+    (hx0 : 0 ≤ n.publicPair.1) (hx1 : n.publicPair.1 < 2 ^ 256) (hxp : n.publicPair.1 < g.c.p) (hy0 : 0 < n.publicPair.2)
+    (hy1 : n.publicPair.2 < g.c.p) (ver : Bytes) (hver : ver.length = 4) :
     ∃ blob, n.serialize (some false) = .ok blob ∧ blob.length = 74 ∧
       blob = UInt8.ofNat n.depth :: (n.parentFingerprint ++ beBytes n.childIndex 4 ++ n.chainCode) ++
         ((if fmod n.publicPair.2 2 = 1 then 3 else 2) :: beBytes n.publicPair.1.toNat 32) ∧
@@ -97,7 +99,7 @@ theorem serialize_rt_public (h4 : g.c.p % 4 = 3) (hbc : byteCount g.c.p = 32) (n
     have h45 : slice (ver ++ (UInt8.ofNat n.depth :: (n.parentFingerprint ++ beBytes n.childIndex 4 ++ n.chainCode) ++
         ((if fmod n.publicPair.2 2 = 1 then 3 else 2) :: beBytes n.publicPair.1.toNat 32))) 45 46 ≠ [0] := by
       unfold slice; rw [a6]; split <;> simp
-    rw [if_neg h45, a6, sec_roundtrip h4 hbc hon hx0 hx1 hy0 hy1]
+    rw [if_neg h45, a6, sec_roundtrip h4 hbc hon hx0 hx1 hxp hy0 hy1]
     simp only
     rw [ofNat_toNat_of_le hd, beNat_beBytes_of_lt hi]
     exact hpc
